@@ -31,10 +31,10 @@ func unhex(t *testing.T, s string) []byte {
 
 // RFC 9180 Appendix A.1.1, A.3.1, A.6.1 (base mode), data only.
 var rfcVectors = []struct {
-	name                                                     string
-	suite                                                    Suite
+	name                                                      string
+	suite                                                     Suite
 	info, skEm, pkRm, skRm, enc, sharedSecret, key, baseNonce string
-	enc0, enc1, enc2, enc4, enc255, enc256                   [3]string // aad, nonce, ct
+	enc0, enc1, enc2, enc4, enc255, enc256                    [3]string // aad, nonce, ct
 }{
 	{
 		name: "A.1.1", suite: Suite{KEMX25519, KDFSHA256, AEADAES128GCM},
